@@ -47,17 +47,20 @@ def find_primitives(prog, cls):
 
 def find_ce_field(prog, cls):
     """name of the instance field that stores the constructor's ce_pin parameter"""
-    init = cls.lookup("__init__")[1]
-    params = [a.arg for a in init.node.args.args]
-    if len(params) < 4:
-        raise AnalysisError("driver constructor signature changed: %s" % init.qualname)
-    ce = params[3]
-    for n in iter_own_nodes(init.node):
-        if isinstance(n, ast.Assign) and isinstance(n.value, ast.Name) and n.value.id == ce:
-            for t in n.targets:
-                if isinstance(t, ast.Attribute) and isinstance(t.value, ast.Name) and t.value.id == "self":
-                    return t.attr
-    raise AnalysisError("CE pin field not found in %s" % init.qualname)
+    for c in cls.mro:
+        init = c.methods.get("__init__")
+        if init is None:
+            continue
+        params = [a.arg for a in init.node.args.args]
+        if len(params) < 4:
+            continue
+        ce = params[3]
+        for n in iter_own_nodes(init.node):
+            if isinstance(n, ast.Assign) and isinstance(n.value, ast.Name) and n.value.id == ce:
+                for t in n.targets:
+                    if isinstance(t, ast.Attribute) and isinstance(t.value, ast.Name) and t.value.id == "self":
+                        return t.attr
+    raise AnalysisError("CE pin field not found for %s" % cls.qualname)
 
 
 def find_status_cache(prog, cls, prims):
@@ -135,6 +138,9 @@ class RadioModel(Model):
         sv = sym_bits(lambda i: ("status", n, i), 8)
         # bit 7 of STATUS is reserved (always 0)
         sv = BitV(tuple(0 if i == 7 else b for i, b in enumerate(sv.bits)), 0, (0, 127))
+        pin = st.extra.get("status_pin")
+        if pin is not None:
+            sv = pin if not isinstance(pin, int) else Const(pin)
         if isinstance(self_val, Ref):
             cell = st.heap[self_val.ident]
             if self.status[0] == "field":
@@ -194,7 +200,14 @@ class RadioModel(Model):
             kind = "regwriten" if (rc is not None and rc < 0x20) else "cmdwriten"
             it.event(st, fr, kind, node, (reg, buf, txn))
             if rc is not None and rc < 0x20:
-                self.reg_set(st, rc, buf)
+                snap = buf
+                if isinstance(buf, Ref) and buf.kind == "bytearray":
+                    cell = st.heap[buf.ident]
+                    if cell.opaque:
+                        snap = Bytes([(("unknown", "opaque buffer"), Unknown(ty="int"))], "bytes")
+                    else:
+                        snap = Bytes([(("items", tuple(norm(i).key() for i in cell.items), tuple(cell.items)), Const(len(cell.items)))], "bytes")
+                self.reg_set(st, rc, snap)
             return [(st, Const(None))]
         if role == "write1":
             val = a[1] if len(a) > 1 else kwargs.get("value")
